@@ -38,9 +38,27 @@ func seqOf(loc poly.Location, parent string) (out string) {
 		}
 	}()
 	seq := poly.Sequence{Sequence: parent}
-	f := poly.Feature{Type: "misc_feature", SequenceLocation: loc}
+	kind := featKinds[(len(parent)+loc.Start+2*loc.End+len(loc.SubLocations))%len(featKinds)]
+	f := poly.Feature{Type: kind.key, SequenceLocation: loc, Attributes: map[string]string{}}
+	for _, q := range kind.quals {
+		f.Attributes[q[0]] = q[1]
+	}
 	seq.AddFeature(&f)
 	return seq.Features[0].GetSequence()
+}
+
+// the feature's sequence is the INSDC reading of its LOCATION, whatever its key and qualifiers say
+var featKinds = []struct {
+	key   string
+	quals [][2]string
+}{
+	{"misc_feature", [][2]string{{"note", "x"}}},
+	{"CDS", [][2]string{{"codon_start", "2"}, {"product", "p"}}},
+	{"CDS", [][2]string{{"codon_start", "3"}, {"transl_table", "11"}, {"translation", "MK"}}},
+	{"gene", [][2]string{{"gene", "g"}, {"pseudo", ""}}},
+	{"source", [][2]string{{"organism", "o"}, {"mol_type", "genomic DNA"}}},
+	{"mRNA", nil},
+	{"CDS", [][2]string{{"codon_start", "1"}, {"exception", "ribosomal slippage"}}},
 }
 
 func viaParser(text, parent string) (out string) {
@@ -82,7 +100,19 @@ func viaRecord(text, parent string) (out string) {
 }
 
 func recText(text, parent string) string {
-	return fmt.Sprintf("LOCUS       TESTLOC %15d bp    DNA     linear   UNK 01-JAN-2000\nDEFINITION  location test.\nFEATURES             Location/Qualifiers\n     misc_feature    %s\n                     /note=\"x\"\nORIGIN\n%s//\n", len(parent), text, originBlock(strings.ToLower(parent)))
+	kind := featKinds[(len(parent)+len(text))%len(featKinds)]
+	var quals strings.Builder
+	for _, q := range kind.quals {
+		switch {
+		case q[1] == "":
+			fmt.Fprintf(&quals, "                     /%s\n", q[0])
+		case q[0] == "codon_start" || q[0] == "transl_table":
+			fmt.Fprintf(&quals, "                     /%s=%s\n", q[0], q[1])
+		default:
+			fmt.Fprintf(&quals, "                     /%s=\"%s\"\n", q[0], q[1])
+		}
+	}
+	return fmt.Sprintf("LOCUS       TESTLOC %15d bp    DNA     linear   UNK 01-JAN-2000\nDEFINITION  location test.\nFEATURES             Location/Qualifiers\n     %-16s%s\n%sORIGIN\n%s//\n", len(parent), kind.key, text, quals.String(), originBlock(strings.ToLower(parent)))
 }
 
 // viaMulti: the same feature in every record of a multi-record file, each record with its own sequence
